@@ -707,7 +707,8 @@ impl SubRule {
                         MatchElement::Segment(i, _) => {
                             pos = i;
                             // remove segment                             
-                            if res_word.syllables.len() <= 1 && word.syllables[i.syll_index].segments.len() <= 1 {
+                            // (the word as it is NOW: earlier deletions of the same match may have emptied it down to this segment)
+                            if res_word.syllables.len() <= 1 && res_word.syllables.get(i.syll_index).map_or(true, |s| s.segments.len() <= 1) {
                                 return Err(RuleRuntimeError::DeletionOnlySeg)
                             }
                             res_word.syllables[i.syll_index].segments.remove(i.seg_index);
@@ -1956,7 +1957,7 @@ impl SubRule {
                         pos = sp;
                         debug_assert!(res_word.in_bounds(sp));
                         // remove segment                             
-                        if res_word.syllables.len() <= 1 && word.syllables[sp.syll_index].segments.len() <= 1 {
+                        if res_word.syllables.len() <= 1 && res_word.syllables.get(sp.syll_index).map_or(true, |s| s.segments.len() <= 1) {
                             return Err(RuleRuntimeError::DeletionOnlySeg)
                         }
                         res_word.syllables[sp.syll_index].segments.remove(sp.seg_index);
